@@ -352,7 +352,10 @@ Theorem report_roundtrip_refuted_lemma :
    to_proto w_text = Some (mkpreport [mkpfile [97]%N [98]%N]
      [mkpdiag [109]%N [] 2 [] [mkpannot 0 1 2 [] true false []] [] [] []])).
 Proof.
-  repeat split; try (vm_compute; reflexivity); wf_witness.
+  split; [split; [wf_witness | vm_compute; reflexivity]|].
+  split; [split; [wf_witness | vm_compute; reflexivity]|].
+  split; [split; [wf_witness | vm_compute; reflexivity]|].
+  split; [wf_witness|]. split; vm_compute; reflexivity.
 Qed.
 
 Corollary report_roundtrip_refuted_exists :
@@ -372,7 +375,11 @@ Theorem repairs_independent_lemma :
   roundtrip_v (mkvar false true false) w_text <> Some (Ok (map forget_sort w_text)) /\
   roundtrip_v (mkvar false false true) w_ice = Some (Ok (map forget_sort w_ice)) /\
   roundtrip_v (mkvar false false true) w_eof <> Some (Ok (map forget_sort w_eof)).
-Proof. repeat split; vm_compute; try reflexivity; discriminate. Qed.
+Proof.
+  split; [vm_compute; reflexivity|]. split; [vm_compute; discriminate|]. split; [vm_compute; discriminate|].
+  split; [vm_compute; reflexivity|]. split; [vm_compute; reflexivity|]. split; [vm_compute; discriminate|].
+  split; [vm_compute; reflexivity|]. vm_compute; discriminate.
+Qed.
 
 (* non-vacuity of the partial theorem: a two-file report with edits that satisfies wf and the guard *)
 Definition fB : file := mkfile [98]%N [120; 121]%N.
@@ -383,15 +390,19 @@ Definition ex_ok : report :=
 Lemma ex_ok_wf_guard : wf ex_ok /\ guard asis ex_ok /\ roundtrip ex_ok = Some (Ok (map forget_sort ex_ok)).
 Proof.
   assert (W : wf ex_ok).
-  { unfold wf, ex_ok, all_snips. cbn [flat_map d_snips app]. repeat split.
-    - repeat constructor; cbn; try lia; try discriminate; auto.
-    - cbn. intros s1 s2 H1 H2 _.
+  { unfold wf. split; [|split].
+    - unfold ex_ok. constructor; [|constructor; [|constructor]].
+      + unfold wf_diag. cbn [d_msg d_level d_snips]. split; [discriminate|]. split; [lia|]. split.
+        * repeat constructor; cbn; lia.
+        * right. reflexivity.
+      + unfold wf_diag. cbn [d_msg d_level d_snips]. split; [discriminate|]. split; [lia|]. split; [constructor|now left].
+    - unfold ex_ok, all_snips. cbn [flat_map d_snips app]. intros s1 s2 H1 H2.
       destruct H1 as [<-|[<-|[<-|[]]]]; destruct H2 as [<-|[<-|[<-|[]]]]; cbn; intros E; try reflexivity; discriminate.
     - cbn. lia. }
   assert (G : guard asis ex_ok).
-  { repeat split; cbn; try (intros; discriminate); try tauto.
-    - intros [[]|[]].
+  { unfold guard, ex_ok, all_snips. cbn [flat_map d_snips app fix_text fix_eof fix_ice asis]. split; [|split]; intros _.
+    - cbn [first_use_whole]. unfold whole. cbn. repeat split; try tauto; intros; try lia.
     - intros s [<-|[<-|[<-|[]]]]; cbn; lia.
     - intros d [<-|[<-|[]]]; cbn; lia. }
-  split; auto. split; auto. apply roundtrip_v_lemma; auto.
+  split; [exact W|]. split; [exact G|]. apply roundtrip_v_lemma; assumption.
 Qed.
